@@ -3,7 +3,7 @@
 From Relic Require Import Base.Prelude Generated.C04_gen C04.Model.
 
 Ltac unfold_gen :=
-  unfold getkey_missing, getkey_follow_alias, getkey_alias_dangling, getkey_needs_token,
+  unfold getkey_missing, getkey_follow_alias, getkey_alias_dangling, getkey_alias_of_alias, getkey_needs_token,
          sign_denied, list_skip_hidden, list_include, getkey_view_allowed in *.
 
 (* ------------------------------------------------------------------ get_key *)
@@ -19,6 +19,7 @@ Proof.
     + intros H. inversion H; subst. split; [reflexivity|]. apply Z.eqb_neq. assumption.
     + intros [H _]. inversion H; subst. reflexivity.
   - destruct (lookup (k_alias kc0) ks) as [kc1|]; [|split; [discriminate | intros [H _]; discriminate]].
+    destruct (k_alias kc1 =? 0) eqn:Ea1; cbn [negb]; [|split; [discriminate | intros [H _]; discriminate]].
     destruct (k_token kc1 =? 0) eqn:Et; split.
     + discriminate.
     + intros [H Hn]. inversion H; subst. apply Z.eqb_eq in Et. contradiction.
@@ -33,6 +34,7 @@ Proof.
   destruct (k_alias kc0 =? 0); cbn [negb].
   - destruct (k_token kc0 =? 0); [left|right]; eexists; reflexivity.
   - destruct (lookup (k_alias kc0) ks) as [kc1|]; [|left; eexists; reflexivity].
+    destruct (k_alias kc1 =? 0); cbn [negb]; [|left; eexists; reflexivity].
     destruct (k_token kc1 =? 0); [left|right]; eexists; reflexivity.
 Qed.
 
